@@ -35,13 +35,29 @@ type Act struct {
 	AsUser string   `json:"asuser"`
 	InIdle bool     `json:"inidle"`
 	// what a NOOP probe on every other open session must be answered after the step
-	Others map[string][]string `json:"others"`
+	Others Probes `json:"others"`
 	// where the acting session is after the step
 	NPhase string `json:"nphase"`
 	NUser  string `json:"nuser"`
 	NSel   string `json:"nsel"`
 	NRo    bool   `json:"nro"`
 	NIdle  bool   `json:"nidle"`
+}
+
+// Probes maps a watcher session to the acceptable results of a NOOP (TLC prints an empty function as []).
+type Probes map[string][]string
+
+func (p *Probes) UnmarshalJSON(b []byte) error {
+	*p = Probes{}
+	if len(b) > 0 && b[0] == '[' {
+		return nil
+	}
+	m := map[string][]string{}
+	if err := json.Unmarshal(b, &m); err != nil {
+		return err
+	}
+	*p = m
+	return nil
 }
 
 func (a Act) Allows(status string) bool {
